@@ -680,6 +680,9 @@ pub fn predefined_user_contended(full: bool) -> crate::scn::ChatScn {
     }));
     for slot in [1usize, 2] {
         s.probes_for.push((slot, "MODE {me}"));
+        // only the predefined user may (re)gain the registered mode
+        s.alphabet_for.push((slot, "MODE {me} +r"));
+        s.alphabet_for.push((slot, "MODE {me} -r"));
     }
     s.probe_focus = Some(crate::check::Focus { cats: vec![], relays: false, relay_verbs: None, actor: true, actor_codes: Some(vec!["221"]), closes: false });
     s
